@@ -860,7 +860,12 @@ class Server:
         line = await stream.readline()
         if not line:
             raise ConnectionResetError
-        s = line.decode(encoding=self.encoding).rstrip()
+        try:
+            s = line.decode(encoding=self.encoding).rstrip()
+        except UnicodeDecodeError:
+            # the line may be a PASS command: its bytes must not reach the
+            # logs through the exception message
+            raise ValueError("command line is not valid in server encoding") from None
         cmd, _, rest = s.partition(" ")
 
         if cmd.lower() in censor_commands:
